@@ -5,6 +5,7 @@ CONSTANTS
   FixLeave = TRUE
   FixWrap = TRUE
   FixDead = FALSE
+  FixAdopt = FALSE
   MaxTry = 2
   TrackCov = FALSE
   Goal = "none"
